@@ -452,6 +452,7 @@ impl CharSet for NumericCharSet {
     }
 
     fn from_str(s: &str) -> Result<Cow<[u8]>, CharSetError> {
+        Self::check(&mut s.bytes())?;
         Ok(Cow::Borrowed(s.as_bytes()))
     }
 }
@@ -498,6 +499,7 @@ impl CharSet for PrintableCharSet {
     }
 
     fn from_str(s: &str) -> Result<Cow<[u8]>, CharSetError> {
+        Self::check(&mut s.bytes())?;
         Ok(Cow::Borrowed(s.as_bytes()))
     }
 }
@@ -538,6 +540,7 @@ impl CharSet for Ia5CharSet {
     }
 
     fn from_str(s: &str) -> Result<Cow<[u8]>, CharSetError> {
+        Self::check(&mut s.bytes())?;
         Ok(Cow::Borrowed(s.as_bytes()))
     }
 }
